@@ -85,7 +85,10 @@ namespace glm
 
 		genType const prev = highestBitValue(value);
 		genType const next = prev << 1;
-		return static_cast<genType>(next - value) < static_cast<genType>(value - prev) ? next : prev;
+		// Compare the distances on the unsigned type: next is the most negative value of a signed type when prev is its
+		// largest power of two, and next - value overflows
+		typedef typename detail::make_unsigned<genType>::type UT;
+		return static_cast<UT>(static_cast<UT>(next) - static_cast<UT>(value)) < static_cast<UT>(static_cast<UT>(value) - static_cast<UT>(prev)) ? next : prev;
 	}
 
 	template<length_t L, typename T, qualifier Q>
